@@ -27,7 +27,7 @@ var ev = kit.Ev("C06")
 func init() {
 	ev.Rule("a history over a small pool of sessions on one real server: establish (with/without key, authenticated by CLAIMTOBE, by TOKEN or not at all; or minted from a claim id), honest resume (both directions recorded), " +
 		"expire (virtual time through the hook; lazy or by sweep), invalidate, and attacks from a scripted requester on a new connection: right id + right key (control) / wrong key / no key, " +
-		"unknown id, id differing in one character of each field, each with and without a reply requested, and byte-for-byte replays of either direction of a recorded resumed connection (whole and cut after each frame); " +
+		"unknown id, id differing in one character of each field, each with and without a reply requested, and byte-for-byte replays of either direction of a recorded resumed connection - cedar's own client's, or a scripted key holder's that sent no nonce of its own - (whole and cut after each frame); " +
 		"oracle: reference session table (alive, has key, identity, authenticated) decides whether the server may return success and with which identity; a requester that asked for a reply to a dead/unknown id reads SID_NOT_FOUND; " +
 		"an attacker without the key gets no byte accepted as application data and cannot read what the server sends (it opens under the reference codec only with the true key); " +
 		"non-trivial = an attack/replay against a session that was resumed honestly before, or a resume attempt after expire/invalidate; distinct by history")
@@ -544,6 +544,12 @@ func (w *world) attack(s *sess, kind int, rr bool, extra int) string {
 			// a legacy-style resumption (no reply requested) by a key holder: keep it for the replay action
 			s.recs = append(s.recs, recording{c2s: cc.Written(), s2c: sc.Written(), appMsg: attackMsg, legacy: true})
 		}
+		if rr && !hostile {
+			// a key holder that asked for a reply but, unlike cedar's own client, put no nonce of its own into the
+			// request (a peer of another implementation): its connection is recorded for the replay action too -
+			// what makes a recorded connection worthless elsewhere has to come from the SERVER
+			s.recs = append(s.recs, recording{c2s: cc.Written(), s2c: sc.Written(), appMsg: attackMsg})
+		}
 	} else if so.appErr == nil {
 		return fmt.Sprintf("a requester WITHOUT the session key got %d bytes accepted as application data (kind %d)", len(so.appMsg), kind)
 	}
@@ -782,6 +788,9 @@ func TestC06Sweep(t *testing.T) {
 						c.Ops = append(c.Ops, Op{K: "attack", V: kind, RR: rr}, Op{K: "resume"})
 						if kind < 4 && rr {
 							c.Ops = append(c.Ops, Op{K: "replay", V: kind}, Op{K: "replay", V: 7 + kind})
+						}
+						if kind == 0 && rr { // the scripted key holder's own connection (no nonce in its request), replayed whole
+							c.Ops = append(c.Ops, Op{K: "replay", V: -1})
 						}
 						if kind == 0 && !rr {
 							// a key holder resumed without asking for a reply: replay exactly that connection
